@@ -138,6 +138,9 @@ def expr_(f, e):
         fn = ast.unparse(e.func)
         if fn == 'int' and len(e.args) == 1:
             a, _ = expr(f, e.args[0], 'Q'); return f'(Qfloor {a})', 'Z'
+        if fn in ('min', 'max') and len(e.args) == 2 and not e.keywords:      # python min/max of two floats (first argument wins ties)
+            a, _ = expr(f, e.args[0], 'Q'); b, _ = expr(f, e.args[1], 'Q')
+            return f'({"Qpymin" if fn == "min" else "Qpymax"} {a} {b})', 'Q'
         if fn == 'np.copy' and len(e.args) == 1: return expr_(f, e.args[0])
         if fn == 'np.array' and len(e.args) == 1 and [ast.unparse(k.value) for k in e.keywords if k.arg == 'dtype'] == ['np.double'] \
                 and len(e.keywords) == 1:
@@ -331,6 +334,9 @@ Definition nthQ (l : list Q) (i : nat) : Q := nth i l 0.
 Definition nthZ (l : list Z) (i : nat) : Z := nth i l 0%Z.
 Definition Qltb (a b : Q) : bool := negb (Qle_bool b a).
 Definition Qmax (a b : Q) := if Qle_bool a b then b else a.
+(* python min(a, b) / max(a, b): the first argument is kept unless the second is strictly smaller / larger *)
+Definition Qpymin (a b : Q) : Q := if Qltb b a then b else a.
+Definition Qpymax (a b : Q) : Q := if Qltb a b then b else a.
 (* math.isclose(a, b) with rel_tol = 1e-09, abs_tol = 0.0 *)
 Definition isclose (a b : Q) : bool :=
   Qeq_bool a b || Qle_bool (Qabs (a - b)) (Qmax ((1 # 1000000000) * Qabs b) ((1 # 1000000000) * Qabs a)).
